@@ -402,21 +402,28 @@ func mkProfile(p *tProf, upd time.Time) (rec *agd.Profile, devs []*agd.Device) {
 		rec.BlockingMode = &dnsmsg.BlockingModeREFUSED{}
 	}
 
-	switch s % 3 {
-	case 0:
+	// Access settings: every combination of the five kinds of rules (none at
+	// all is the empty profile).
+	if bits := (s*7 + 3) % 32; bits == 0 {
 		rec.Access = access.EmptyProfile{}
-	case 1:
-		rec.Access = access.NewDefaultProfile(&access.ProfileConfig{
-			AllowedNets:          []netip.Prefix{netip.MustParsePrefix("1.1.1.0/24")},
-			BlockedNets:          []netip.Prefix{netip.MustParsePrefix("2.2.0.0/16"), netip.MustParsePrefix("2001:db8:2::/48")},
-			AllowedASN:           []geoip.ASN{geoip.ASN(s)},
-			BlockedASN:           []geoip.ASN{2, 3},
-			BlocklistDomainRules: []string{"block.test", fmt.Sprintf("||r%d.test^", s)},
-		})
-	default:
-		rec.Access = access.NewDefaultProfile(&access.ProfileConfig{
-			BlockedNets: []netip.Prefix{netip.MustParsePrefix("3.3.3.3/32")},
-		})
+	} else {
+		ac := &access.ProfileConfig{}
+		if bits&1 != 0 {
+			ac.AllowedNets = []netip.Prefix{netip.MustParsePrefix("1.1.1.0/24")}
+		}
+		if bits&2 != 0 {
+			ac.BlockedNets = []netip.Prefix{netip.MustParsePrefix("2.2.0.0/16"), netip.MustParsePrefix("2001:db8:2::/48"), netip.MustParsePrefix("3.3.3.3/32")}
+		}
+		if bits&4 != 0 {
+			ac.AllowedASN = []geoip.ASN{geoip.ASN(s)}
+		}
+		if bits&8 != 0 {
+			ac.BlockedASN = []geoip.ASN{2, 3}
+		}
+		if bits&16 != 0 {
+			ac.BlocklistDomainRules = []string{"block.test", fmt.Sprintf("||r%d.test^", s)}
+		}
+		rec.Access = access.NewDefaultProfile(ac)
 	}
 
 	switch s % 4 {
